@@ -29,6 +29,7 @@ def declare(rep):
     rep.rule("C05.d", "copy is driven by nd_map over the source's full extent vector", floor=8)
     rep.rule("C05.e", "conversion does not write through the source", floor=8)
     rep.rule("C05.f", "whole-stack conversion through the wrapper layers: transform and extents reported by the result are the source's; storage is a fresh buffer", floor=6)
+    rep.rule("C05.g", "conversion from an rvalue source of another storage order still re-lays out into a fresh buffer", floor=4)
     rep.rule("C05.cuda", "CUDA device array conversion (not buildable here): recorded finding", floor=1)
 
 
@@ -275,6 +276,33 @@ def h_stack(i1, i2, l1, l2, N=3, T="float", M=3):
                    meta={"i1": i1, "i2": i2, "l1": l1, "l2": l2, "N": N, "pairs": k})
 
 
+def run_rvalue(rep, tier):
+    """conversion from an rvalue source between different storage orders must still re-lay the data out"""
+    kinds = [("strided", "morton_portable"), ("morton_portable", "strided"), ("hilbert", "strided"), ("strided", "hilbert")]
+    hs = [relayout.make_rvalue(s_, d_, 2, "float", 3) for s_, d_ in kinds] + [relayout.make_rvalue("morton_portable", "strided", 3, "double", 2)]
+    harness.build(hs, "c05rv", includes=relayout.includes([2, 3]), per_tu=2)
+    for h in hs:
+        m = h.meta
+        inst = "%s&& -> %s N=%d" % (m["src"], m["dst"], m["N"])
+        file = relayout.FILES[m["dst"].split("_")[0]]
+        if h.error:
+            loc, msg = harness.first_error(h)
+            rep.fail("C05.g", inst, loc, "conversion from an rvalue does not compile: " + msg)
+            continue
+        s = ir.Sym(h.func)
+        outs = {k: ir.ungate(v) for k, v in s.outputs(h.out_index).items()}
+        nd = [c for c in s.calls if (c.name or "").startswith(relayout.NDMAP)]
+        news = [c for c in s.calls if c.name == "_Znam"]
+        ptr = outs.get(8)
+        fresh = ptr is not None and from_new(ptr, {c.n for c in news})
+        if len(nd) != 1 or not news or not fresh:
+            rep.fail("C05.g", inst, file, "converting from an rvalue %s field does not re-lay the data out into a fresh buffer (%d nd_map calls, %d allocations, result buffer %s): the %s layer would read the other layer's element order" % (
+                m["src"], len(nd), len(news), ir.show(ptr)[:60] if ptr else "unset", m["dst"]))
+        else:
+            rep.ok("C05.g", inst)
+    return hs
+
+
 def from_new(t, news):
     found = []
     ir.walk(('x', t), lambda x: found.append(x) if x[0] == 'ret' and len(x) == 2 and x[1] in news else None)
@@ -373,6 +401,7 @@ def run(rep, tier):
             rep.fail("C05.a", w.meta["cid"], c13.locate(w, "lib/core/covfie/core/field.hpp"), "conversion does not compile: " + w.detail)
     hs = run_conversions(rep, tier)
     run_stacks(rep, tier)
+    run_rvalue(rep, tier)
     cuda_scan(rep)
     return hs
 
